@@ -354,7 +354,7 @@ func runCtrl(sci interface{}) {
 	} else {
 		// C04: only the watch can deliver; a pending reconnect fires within the
 		// retry delay (1 s), far below the refresh period
-		time.Sleep(1500 * time.Millisecond)
+		waitQuiet(recoveryBound, func() bool { return h.WatchLossPossible() || rootInSync(h) })
 		detsim.Settle()
 		if detsim.IsClosed(h.Ctrl.Done()) {
 			detsim.Fail("controller-died", "controller shut down although no list failed: Error()=%v\n%s", h.Ctrl.Error(), srv.Summary())
